@@ -20,15 +20,6 @@ fn to_length(n: f64) -> u32 {
     }
 }
 
-/// Parse a string to a number for ToNumber coercion.
-fn string_to_number(s: &str) -> f64 {
-    let s = s.trim();
-    if s.is_empty() {
-        return 0.0;
-    }
-    s.parse::<f64>().unwrap_or(f64::NAN)
-}
-
 /// Get the length of an array-like object with full ToLength coercion.
 /// This version properly handles objects with valueOf/toString by calling the interpreter.
 fn get_array_like_length(interp: &mut Interpreter, obj: &Gc<JsObject>) -> Result<u32, JsError> {
@@ -51,7 +42,7 @@ fn get_array_like_length(interp: &mut Interpreter, obj: &Gc<JsObject>) -> Result
         JsValue::Boolean(false) => Ok(0),
         JsValue::Null => Ok(0),
         JsValue::Undefined => Ok(0),
-        JsValue::String(s) => Ok(to_length(string_to_number(s.as_str()))),
+        JsValue::String(s) => Ok(to_length(crate::value::string_to_number(s.as_str()))),
         JsValue::Symbol(_) => Ok(0), // Symbols can't be converted to number
         JsValue::Object(_) => {
             // Call ToPrimitive with "number" hint, then ToNumber
